@@ -1210,9 +1210,11 @@ impl<Alloc: BrotliAlloc> BrotliEncoderStateStruct<Alloc> {
         if !self.ensure_initialized() {
             return;
         }
-        if dict_size == 0 || self.params.quality == 0 || self.params.quality == 1 || size <= 1 {
-            self.params.catable = true; // don't risk a too-short dictionary
-            self.params.appendable = true; // don't risk a too-short dictionary
+        // a one-byte dictionary is placed like any other: the decoder uses every non-empty
+        // dictionary, so ignoring it here would leave the two sides one position apart
+        if dict_size == 0 || self.params.quality == 0 || self.params.quality == 1 {
+            self.params.catable = true; // the dictionary is not used: keep the stream self-contained
+            self.params.appendable = true;
             return;
         }
         self.custom_dictionary = true;
